@@ -80,6 +80,7 @@ func (c *controller) SetBalancer(l log.Logger, name string, svcRo *v1.Service, _
 
 	prevIPs := c.ips.IPs(name)
 	prevAllocKey := c.ips.AllocationKey(name)
+	prevFootprint := c.ips.Footprint(name)
 
 	if c.convergeBalancer(l, name, svc) != nil {
 		syncStateRes = controllers.SyncStateErrorNoRetry
@@ -89,6 +90,13 @@ func (c *controller) SetBalancer(l log.Logger, name string, svcRo *v1.Service, _
 
 	if prevAllocKey != newAllocKey {
 		level.Debug(l).Log("event", "allocation key changed", "msg", "allocation changed for shared service, reprocessing")
+		syncStateRes = controllers.SyncStateReprocessAll
+	}
+
+	if newFootprint := c.ips.Footprint(name); prevFootprint != "" && newFootprint != "" && prevFootprint != newFootprint {
+		// The service stays allocated but moved to other addresses or changed its ports: what it
+		// released may be what another service is waiting for.
+		level.Debug(l).Log("event", "allocation footprint changed", "msg", "addresses or ports released, reprocessing")
 		syncStateRes = controllers.SyncStateReprocessAll
 	}
 
